@@ -598,7 +598,7 @@ func runSequential(c Case) (r seqResult) {
 
 // "px" starts with characters of the prefix "pfx."; "ia;" is, in a store without prefix, the
 // database key right after every entry of index "ia" (index name + ':' incremented)
-var idAlpha = []string{"1", "2", "px", "a", "ab", "b", "ia;"}
+var idAlpha = []string{"1", "2", "px", "a", "ab", "b", "ia;", "$in"}
 
 func describeModel(m map[string]Rec) string {
 	var ks []string
